@@ -26,6 +26,11 @@ Third part (fault points and shared state; streams "tm.faults" / "gr.faults" / "
 * sessions (kind "ses"): the histories of 2-4 motions / signals (own objects each; same length mostly; "twins" = the same numbers
   and history in another container / number type) interleaved through the same module;
 * every call of the implementation is made by a worker thread with a time limit: a call that does not return is a failing clause.
+
+Audit round 8 (size-conditioned code paths; streams "long.tm" / "long.gr", c20_long.py): the same clauses at EVERY time step / sample of
+motions and polynomial signals of 999 ... 131073 time steps (special time steps and the vertex of the parabola at the first / last
+samples and at, next to and across multiples of 1000 / 1024 / 4096 / 10000 / 65536), the model tie at the special positions (transform)
+and for whole dyadic signals of up to 4097 samples (velocity / acceleration).
 """
 import copy
 import math
@@ -48,7 +53,13 @@ RULE = ("random 6-dof motions (1-5 time steps, angles up to ±180 deg / ±pi rad
         "1-4 samples, histories of 3-8 steps on one object with in-place changes; non-trivial = >= 2 calls or >= 2 non-zero angles "
         "(tm), >= 5 samples or >= 3 steps (gr); "
         "faults / sessions: the same histories with calls the entry point may reject inserted before valid calls, and 2-4 such histories "
-        "(own objects, same module) interleaved; non-trivial (session) = >= 1 rejected call and >= 2 objects")
+        "(own objects, same module) interleaved; non-trivial (session) = >= 1 rejected call and >= 2 objects; "
+        "long: motions (smooth sums of sines or random, deg / rad, special steps: zero rotation, quarter / half turns about one axis, pitch "
+        "+-90 deg, beyond a full turn, -0.0, far position) and polynomial signals of degree <= 2 (dyadic coefficients on power-of-two steps: "
+        "exact; float coefficients on decimal steps; scalar step / time array, 1-D / 2-7 rows, vertex at a special position; second signal "
+        "with spikes / steps for linearity) of n in {999,1000,1001,1023,1024,1025,4095,4096,4097,9999,10000,10001,65535,65536,65537,70001,"
+        "131073} time steps (quick: 3 motions, 6 signals), special positions = first / last and at, next to, across multiples of 1000 / 1024 / "
+        "4096 / 10000 / 65536")
 
 
 def euler(rx, ry, rz):
@@ -1230,13 +1241,31 @@ def run(chk):
         cases += [gen(rng) for _ in range(cnt * q)]
         labels += [stream] * (cnt * q)
     _run_cases(chk, drv, cases, labels, fns, transform_motion)
+    # ---- audit round 8: LONG motions / signals (c20_long.py) ----------------------------------------------------------------------
+    from . import c20_long
+    c20_long.run_long(chk, drv, fns, transform_motion, _call, core.load_corpus("C20"))
 
 
 def replay(rp):
     from qats.motions import transform_motion, velocity, acceleration
     inp = rp["input"]
     bad = 0
-    if inp.get("kind") in ("tm", "gr", "hom", "ses"):
+    if inp.get("kind") in ("long-tm", "long-gr"):
+        from . import c20_long
+        fails = []
+
+        def rep(oracle, expected, observed, **kw):
+            fails.append(oracle)
+            print("FAILS:", oracle, kw, "\n  expected", expected, "\n  observed", observed)
+
+        def dis(stream, i, m, im):
+            print("model and implementation differ (%s): model %s impl %s" % (stream, m, im))
+        case = {k: v for k, v in inp.items() if k not in ("step", "index", "row", "fn")}
+        drv = core.Driver()
+        ls = c20_long.lines_of(case)
+        c20_long.eval_long(case, dict(vel=velocity, acc=acceleration), transform_motion, _call, rep, drv.run(ls) if ls else None, dis)
+        bad = len(fails)
+    elif inp.get("kind") in ("tm", "gr", "hom", "ses"):
         fails = []
 
         def rep(oracle, expected, observed, **kw):
